@@ -165,7 +165,11 @@ def schedule_for(case, fe, rng, style):
     dgram = D.FRONTENDS[fe].datagram
     for ci, (data, sent) in enumerate(zip(case.streams, case.sent)):
         cuts = []
-        if dgram or style == "frames":
+        if style == "multi":
+            k = rng.choice([2, 3])               # several whole frames per read / per datagram, for every front-end
+            ends = [s["start"] + s["len"] - 1 for s in sent]
+            cuts = [e for j, e in enumerate(ends) if (j + 1) % k == 0]
+        elif dgram or style == "frames":
             k = rng.choice([1, 1, 2, 3]) if not dgram else 1
             ends = [s["start"] + s["len"] - 1 for s in sent]
             cuts = [e for j, e in enumerate(ends) if (j + 1) % k == 0]
@@ -449,7 +453,7 @@ def gen_c17(tier, rng):
             case.add_conn(frames)
             if sched is None:
                 # whole frames per event is valid for every front-end; random boundaries only for streams
-                sched = schedule_for(case, "syncTcp" if split else "syncUdp", rng, "random" if split else "frames")
+                sched = schedule_for(case, "syncTcp" if split else "syncUdp", rng, "random" if split else ("multi" if k % 4 == 1 else "frames"))
             case.schedule = sched
             t = run_case(case)
             runs.append({"fe": fe, "obs": obs_of(t)})
